@@ -137,6 +137,8 @@ inline const std::vector<Universe>& universes() {
     v.push_back(pillow(3));          // 9
     v.push_back(pillow(5));          // 10
     v.push_back(cw_small());         // 11
+    v.push_back(simplicial(7, 1));   // 12  graphs on 7 vertices (churn configs)
+    v.push_back(simplicial(6, 2));   // 13 = 4, listed again so that the churn universes are contiguous
     return v;
   }();
   return us;
@@ -176,7 +178,13 @@ struct Model {
 struct GenParams {
   int nmin = 5, nmax = 28;
   bool insertion_only = false;
+  bool churn = false;   // many vertices first, then edges / 2-cells inserted and removed around a plateau (many classes alive at once)
 };
+
+inline int pick_churn_universe(vh::Rng& r) {
+  static const int ids[] = {12, 12, 13, 13, 6, 6, 7, 8, 8, 10, 3, 2};
+  return ids[r.below(sizeof(ids) / sizeof(ids[0]))];
+}
 
 // model-driven history: phases of growth / plateau / shrink, identity steps, remove-then-reinsert bias, bias towards removing
 // cells that carry a cycle (the removal that kills a class) and towards old cells
@@ -190,7 +198,20 @@ inline std::vector<Op> gen_history(vh::Rng& r, const Universe& U, const GenParam
   std::vector<int> recently_removed;
   std::vector<int> ins_time(U.cells.size(), -1);
   const unsigned high = (unsigned)r.pick(std::vector<int>{0, 40, 70, 90});   // % of insertions that take a cell of the highest admissible dimension
-  for (int i = 0; i < n; ++i) {
+  int i0 = 0;
+  if (gp.churn) {
+    // most vertices, in random order, then a few edges
+    std::vector<int> vs; for (size_t c = 0; c < U.cells.size(); ++c) if (U.cells[c].dim == 0) vs.push_back((int)c);
+    r.shuffle(vs);
+    size_t keep = std::max<size_t>(3, vs.size() - r.below(vs.size() / 3 + 1));
+    for (size_t k = 0; k < keep && k < vs.size() && (int)ops.size() < n; ++k) { M.K |= bit(vs[k]); ins_time[vs[k]] = (int)ops.size(); ops.push_back(Op{0, vs[k]}); }
+    i0 = (int)ops.size();
+  }
+  for (int i = i0; i < n; ++i) {
+    if (phase_left == 0 && gp.churn) {
+      p_ins = (i == i0) ? 85u : (unsigned)r.pick(std::vector<int>{70, 55, 50, 45, 35});
+      phase_left = (i == i0) ? (int)r.range(2, 8) : (int)r.range(3, 12);
+    }
     if (phase_left == 0) {
       p_ins = (i == 0) ? 92u : (unsigned)r.pick(std::vector<int>{92, 75, 50, 50, 35, 12});
       phase_left = (int)r.range(2, 10);
